@@ -18,7 +18,9 @@
  *     (x mod p, x mod q) gives x back, for every x < p*q.
  * C10_REAL_MODPOW=1: real exponentiation, C10_DP, C10_DQ, C10_E concrete and
  *   checked consistent in the harness (e*dp == 1 mod p-1, ...):
- *   public(private(x)) == x and private(public(x)) == x for every x < n.
+ *   C10_ORDER 0/1: public(private(x)) == x / private(public(x)) == x for
+ *   every x < n; C10_ORDER 2: private(x)^e mod n == x with the public side
+ *   done in explicit integer arithmetic (needs n < 2^32).
  * C10_BIGF=1: a factor of C10_PL bytes with first byte 0x80, longer than the
  *   implementation supports: returns 0.
  */
@@ -146,18 +148,37 @@ int main(void)
 	CHECK(((uint64_t)C10_E * C10_DP) % (C10_P - 1) == 1, "harness: e*dp == 1 mod p-1");
 	CHECK(((uint64_t)C10_E * C10_DQ) % (C10_Q - 1) == 1, "harness: e*dq == 1 mod q-1");
 	ASSUME(X < NN);
-#if C10_ORDER == 0
+#if C10_ORDER == 2
+	/* private operation alone, public side = explicit integer arithmetic:
+	   the result is the e-th root of x modulo n */
+	uint32_t r1 = PRIV(x, &sk);
+	CHECK(r1 == 1, "private succeeds on x < n");
+	for (i = 0; i < XL; i++) Y = (Y << 8) | x[i];
+	CHECK(Y < NN, "private result is below n");
+	{
+		uint64_t R = 1 % NN, B = Y % NN;
+		uint32_t ee = C10_E;
+		for (i = 0; i < 32; i++) { if (ee & 1) R = (R * B) % NN; B = (B * B) % NN; ee >>= 1; }
+		CHECK(R == X, "private(x)^e mod n == x (integer reference)");
+	}
+	CHECK(x[XL] == x0[XL], "nothing written past the modulus length");
+	(void)pk;
+	WITNESS_POINT("private result checked against integer arithmetic");
+	return 0;
+#elif C10_ORDER == 0
 	uint32_t r1 = PRIV(x, &sk);
 	uint32_t r2 = PUB(x, XL, &pk);
 #else
 	uint32_t r2 = PUB(x, XL, &pk);
 	uint32_t r1 = PRIV(x, &sk);
 #endif
+#if C10_ORDER != 2
 	CHECK(r1 == 1 && r2 == 1, "both operations succeed on x < n");
 	for (i = 0; i < XL; i++) CHECK(x[i] == x0[i], "public and private operations are mutual inverses");
 	CHECK(x[XL] == x0[XL], "nothing written past the modulus length");
 	WITNESS_POINT("inverse pair checked");
 	return 0;
+#endif
 #endif
 #endif
 }
